@@ -8,8 +8,10 @@ Follows `generate_constraints_stmt (StmtKind::Assign)` in statics/typecheck.rs t
 emitted store, or the compiler panic when the variable is not in the function's offset table).
 
 D19 as repaired in /repo (aafbeaf): `for` and `match` bindings have no `pat_is_mutable` entry and
-count as immutable.  D20 as it is: a variable captured by a lambda is not in the lambda's offset
-table, the checker knows nothing about captures, the compiler panics.
+count as immutable.  D20 as repaired (fdfd074): when the assigned variable is bound outside the
+innermost enclosing lambda or task the checker reports "Can't modify captured variable" (after the
+immutability test).  `oldDecision` keeps the table of the code before that repair, where such an
+assignment passed the checker and the compiler panicked on the missing offset-table entry.
 -/
 namespace Abra.Assign
 
@@ -25,8 +27,8 @@ deriving DecidableEq, Repr
 
 /-- the left-hand side of an assignment -/
 inductive Target where
-  | name (b : Base) (captured : Bool)   -- a variable; `captured`: the assignment sits in a lambda
-                                        -- (or task) that captures the variable from outside
+  | name (b : Base) (captured : Bool)   -- a variable; `captured`: the variable is bound outside the
+                                        -- innermost lambda or task enclosing the assignment
   | elem                                -- a[i]    (ExprKind::IndexAccess)
   | field                               -- s.f     (ExprKind::MemberAccess)
   | nonVar                              -- a name that resolves to a function / type / …
@@ -40,7 +42,8 @@ inductive Decision where
   | accept          -- compiles; the store takes effect
   | diagImmutable   -- "Can't modify immutable variable. Try using `var` instead of `let`"
   | diagNotVar      -- "Can't assign to this. Must assign to a variable defined with `var` keyword"
-  | crash           -- accepted by the checker, the compiler panics
+  | diagCaptured    -- "Can't modify captured variable. A lambda or task gets a copy of the variables it uses"
+  | crash           -- accepted by the checker, the compiler panics (only in `oldDecision`)
 deriving DecidableEq, Repr
 
 /-- `ctx.pat_is_mutable.get(&pat.id).copied().unwrap_or(false)` for a pattern node;
@@ -53,26 +56,32 @@ def patMutable : Base → Option Bool
   | .paramB => none
   | .lamParamB => none
 
-/-- the checker (`generate_constraints_stmt`, first block of the `Assign` case) -/
+/-- the checker (`generate_constraints_stmt`, first block of the `Assign` case):
+    immutable pattern → diagnostic; else bound outside the enclosing lambda/task → diagnostic -/
 def checker : Target → Decision
-  | .name b _ =>
+  | .name b captured =>
     match patMutable b with
     | some false => .diagImmutable
-    | _ => .accept
+    | _ => if captured then .diagCaptured else .accept
   | .elem => .accept
   | .field => .accept
   | .nonVar => .diagNotVar
 
-/-- the compiler: `offset_table.get(&node.id()).unwrap()` fails for a captured variable -/
-def compilerPanics : Target → Bool
-  | .name _ captured => captured
-  | _ => false
+/-- the decision table; the operator plays no role in it, and whatever the checker accepts
+    compiles (every accepted variable is in the function's own offset table) -/
+def assignDecision (t : Target) (_op : AOp) : Decision := checker t
 
-/-- the decision table; the operator plays no role in it -/
-def assignDecision (t : Target) (_op : AOp) : Decision :=
-  match checker t with
-  | .accept => if compilerPanics t then .crash else .accept
-  | d => d
+/-- the table before fdfd074: no capture test in the checker, and
+    `offset_table.get(&node.id()).unwrap()` fails in the compiler for a captured variable -/
+def oldDecision (t : Target) (_op : AOp) : Decision :=
+  match t with
+  | .name b captured =>
+    match patMutable b with
+    | some false => .diagImmutable
+    | _ => if captured then .crash else .accept
+  | .elem => .accept
+  | .field => .accept
+  | .nonVar => .diagNotVar
 
 /-! ### the emitted store for a variable (F0): `x = e` / `x op= e` -/
 
